@@ -47,6 +47,8 @@ class Options(MutableMapping, dict):
 
         # User options
         if user_options is not None:
+            if "useroptions" in user_options:
+                raise ValueError("The option useroptions does not exist.")
             self.update(user_options)
             self["useroptions"].update(user_options.keys())
 
